@@ -192,6 +192,31 @@ theorem entries_below_first_refused (w : Wal) (h : WF w) (lo hi maxSize : Nat) (
     w.entries lo hi maxSize = .error .compacted ∧ (abs w).entries lo hi maxSize = .error .compacted :=
   entries_compacted w h lo hi maxSize hlo
 
+/-- **C06 (a size-limited read steps over nothing).** What `Entries(lo, hi, maxSize)` returns is a
+non-empty run of the stored log starting at `lo`: a follower that catches up from these reads is sent
+no log with a hole (seeded C03-F skipped an entry that did not fit and went on). -/
+theorem limited_read_is_a_run_from_lo (w : Wal) (h : WF w) (lo hi maxSize : Nat)
+    (hlo : (abs w).firstIndex ≤ lo) (hlt : lo < hi) (hhi : hi ≤ (abs w).lastIndex + 1) :
+    ∃ es w', w.entries lo hi maxSize = .ok (es, w') ∧
+      es <+: (((abs w).ents.drop (lo - (abs w).offset)).take (hi - lo)) ∧ es ≠ [] := by
+  obtain ⟨es, w', h1, h2, _, _⟩ := entries_agree w h lo hi maxSize hlo hlt hhi
+  refine ⟨es, w', h1, ?_⟩
+  simp only [Mem.firstIndex, Mem.lastIndex] at hlo hhi
+  have hoff : ¬ lo ≤ (abs w).offset := by omega
+  have hlen : ((abs w).ents.length == 1) = false := by
+    simp only [beq_eq_false_iff_ne, ne_eq]; omega
+  simp only [Mem.entries, hoff, if_false, hlen] at h2
+  injection h2 with h2
+  subst h2
+  refine ⟨Mem.limitSize_prefix _ _, Mem.limitSize_ne_nil _ _ ?_⟩
+  intro hnil
+  have := congrArg List.length hnil
+  simp only [List.length_take, List.length_drop, List.length_nil] at this
+  omega
+
+/-- the loop the theorem above is about is the loop in the code (regenerated from `getEntries`) -/
+theorem scan_loop_in_code : Generated.walScanStopsAtTheLimit = true := by decide
+
 /-- **C06 (`DeleteGroup`).** -/
 theorem delete_group_leaves_nothing (w : Wal) :
     (Wal.deleteGroup w).disk = ⟨[], none, none⟩ ∧ Wal.open_ (Wal.deleteGroup w).disk = Wal.fresh :=
